@@ -297,7 +297,12 @@ def evaluate(ctx, b, schemas, labels, norders, tag):
                 problems.append(("machinery", k, {"what": f"Lean Spec.Legal={legal[xi]} but the independent Python rule says {pl} for {X}"}))
             if legal[xi] != evalv[xi]:
                 ctx.hist("eval-vs-legal", "differ" + ("-several-supertypes" if ms & set(X) else ""))
-                if not ms and len(X) >= 2:
+                abstract_leaf = any(e["abstract"] and not G.subs_of(schema)[e["name"]] and e["name"] in X for e in schema)
+                if evalv[xi] and not legal[xi] and abstract_leaf:
+                    # the recorded defect abstract-without-subtypes:accepts-illegal seen from the tree side: the emitted
+                    # tree has a plain SimpleList for an ABSTRACT entity without subtypes (reported through the real verdict)
+                    ctx.hist("eval-vs-legal", "differ-abstract-without-subtypes")
+                elif not ms and len(X) >= 2:
                     problems.append(("evallegal", k, {"X": list(X), "what": f"plain meaning of the emitted tree says {evalv[xi]}, Spec.Legal says {legal[xi]}"}))
             else:
                 ctx.hist("eval-vs-legal", "agree")
